@@ -10,6 +10,7 @@ PAIRS = [
   ('back.chain_row.execute', 'backmp11.transition_chain.execute', ('select.spec.h', 'chain_entry'), ('select_mp11.spec.h', 'chain_entry')),
   ('backmp11.transition_chain.execute', 'backmp11.favor_compile_time.transition_chain.execute', ('select_mp11.spec.h', 'chain_entry'), ('select_mp11.spec.h', 'chain_entry_acc')),
   ('backmp11.internal_transition_chain.execute', 'backmp11.favor_compile_time.internal_transition_chain.execute', ('select_mp11.spec.h', 'chain_entry'), ('select_mp11.spec.h', 'chain_entry')),
+  ('backmp11.dispatch_impl.flat_fold.dispatch', 'backmp11.dispatch_impl.function_pointer_array.dispatch', ('dispatch_mp11.spec.h', 'dispatch'), ('dispatch_mp11.spec.h', 'dispatch')),
   # region loop + result
   ('back.do_process_event', 'back11.do_process_event', ('select.spec.h', 'do_process_event'), ('select.spec.h', 'do_process_event')),
   ('back.do_process_event', 'backmp11.do_process_event', ('select.spec.h', 'do_process_event'), ('select_mp11.spec.h', 'do_process_event')),
